@@ -319,3 +319,9 @@ def post(ctx, bins):
                              "detail": "buffer-faithful model (on the implementation's default digits) disagrees with the implementation"})
     ctx["post_evaluations"] = n
     return viol
+
+
+def classify(v):
+    """call-site classes of known findings (findlib.py)"""
+    import findlib
+    return findlib.write_class(v)
